@@ -5,7 +5,7 @@ import Chihaya.Lemmas.MemStore
 `Shard.Inv` contains, per shard, `nS = Σ |seeders|` and `nL = Σ |leechers|` as *integers*: the
 `uint64` counters of the code therefore never pass below zero and never wrap. The invariant holds
 initially and is preserved by every operation, hence in every reachable state; `totals`
-(`populateProm`) is the sum over the shards. (Redis: see `C17_redis_*` in Props/C01R.lean.)
+(`populateProm`) is the sum over the shards. (Redis: `RedisStore.Redis_totals` in Props/Redis.lean.)
 -/
 namespace MemStore
 
